@@ -24,10 +24,106 @@ func TestMain(m *testing.M) { kit.Main(m) }
 // Location (real callers pass time.Now().Add(lifetime), i.e. the process' local zone).
 // nil = time.UTC; otherwise the same instant is expressed in time.FixedZone("verif", *Zone)
 // (seconds east of UTC). The instant, and therefore every expected output, is unchanged.
+//
+// Pad: record size boundary. The IPNS size limit is inclusive (errors.go: ErrRecordSize "is
+// returned when an IPNS Record exceeds the maximum size"; Validate rejects only
+// proto.Size > MaxRecordSize), so a record of at most MaxRecordSize serialized bytes is an
+// ordinary member of the property's domain. With Pad set, run adds one more valid metadata
+// entry (bytes or string) whose length it tunes so that MarshalRecord yields exactly
+// MaxRecordSize+Delta bytes (Delta <= 0). The payload itself is not part of the case (it is a
+// pure function of the case: Fill repeated), only its target is.
 type Case struct {
 	Rec  kit.IpnsRecSpec `json:"rec"`
 	Bad  *kit.IpnsMeta   `json:"bad,omitempty"`
 	Zone *int            `json:"zone,omitempty"`
+	Pad  *PadSpec        `json:"pad,omitempty"`
+}
+
+type PadSpec struct {
+	Kind  string `json:"kind"`  // "bytes" | "string"
+	Delta int    `json:"delta"` // target size = ipns.MaxRecordSize + Delta, Delta <= 0
+	Fill  byte   `json:"fill"`  // payload byte (strings: 'a' + Fill%26)
+}
+
+func genPad(t *rapid.T) *PadSpec {
+	p := &PadSpec{Kind: rapid.SampledFrom([]string{"bytes", "bytes", "string"}).Draw(t, "padkind")}
+	switch rapid.IntRange(0, 5).Draw(t, "padclass") {
+	case 0, 1, 2:
+		p.Delta = 0
+	case 3:
+		p.Delta = -1
+	case 4:
+		p.Delta = -rapid.IntRange(2, 8).Draw(t, "paddelta")
+	default:
+		p.Delta = -rapid.IntRange(9, 4000).Draw(t, "paddelta")
+	}
+	p.Fill = rapid.Byte().Draw(t, "padfill")
+	return p
+}
+
+// padEntry is the padding metadata entry of n payload bytes under a key not used by spec.
+func padEntry(spec kit.IpnsRecSpec, p PadSpec, n int) kit.IpnsMeta {
+	key := "_pad"
+	for used := true; used; {
+		used = false
+		for _, m := range spec.Meta {
+			if m.Key == key {
+				used = true
+				key += "_"
+				break
+			}
+		}
+	}
+	if p.Kind == "string" {
+		return kit.IpnsMeta{Key: key, Kind: "string", S: string(bytes.Repeat([]byte{'a' + p.Fill%26}, n))}
+	}
+	var b []byte
+	if n > 0 {
+		b = bytes.Repeat([]byte{p.Fill}, n)
+	}
+	return kit.IpnsMeta{Key: key, Kind: "bytes", B: b}
+}
+
+// buildPadded creates the record of spec plus a padding entry tuned so that the marshalled
+// record has exactly ipns.MaxRecordSize+Delta bytes. The serialized size grows by one byte per
+// payload byte in the range used (the CBOR and protobuf length prefixes do not change width
+// between 256 and 16383 bytes), so the second attempt normally hits the target; signatures of
+// variable length (ECDSA: DER) can move it by a byte or two, hence a few more rounds. If the
+// exact target is not reached, the largest attempt that stays within the limit is used. The
+// returned spec includes the padding entry.
+func buildPadded(c Case, spec kit.IpnsRecSpec, now time.Time) (*kit.IpnsBuilt, error) {
+	target := ipns.MaxRecordSize + c.Pad.Delta
+	if c.Pad.Delta > 0 {
+		return nil, fmt.Errorf("%w: pad delta %d > 0", kit.ErrIpnsHarness, c.Pad.Delta)
+	}
+	var best *kit.IpnsBuilt
+	n := target - 2500
+	if n < 300 {
+		n = 300
+	}
+	for round := 0; round < 10; round++ {
+		s := spec
+		s.Meta = append(append([]kit.IpnsMeta{}, spec.Meta...), padEntry(spec, *c.Pad, n))
+		b, err := build(c, s, now)
+		if err != nil {
+			return nil, err
+		}
+		d := target - len(b.Bytes)
+		if d >= 0 && (best == nil || len(b.Bytes) > len(best.Bytes)) {
+			best = b
+		}
+		if d == 0 {
+			break
+		}
+		n += d
+		if n < 300 {
+			break
+		}
+	}
+	if best == nil {
+		return nil, fmt.Errorf("%w: no padded record within %d bytes", kit.ErrIpnsHarness, target)
+	}
+	return best, nil
 }
 
 // zoneOffsets: offsets of real zones (whole hours, half/quarter hours, the extremes
@@ -101,6 +197,8 @@ func gen(t *rapid.T) Case {
 	if rapid.IntRange(0, 5).Draw(t, "bad") == 0 {
 		b := kit.IpnsMetaInvalid(t)
 		c.Bad = &b
+	} else if rapid.IntRange(0, 7).Draw(t, "pad") == 0 {
+		c.Pad = genPad(t)
 	}
 	return c
 }
@@ -155,9 +253,35 @@ func run(c Case) kit.Result {
 	if !spec.MetaValid() {
 		return kit.Fail("harness: generated metadata is not valid")
 	}
-	b, err := build(c, spec, now)
+	var b *kit.IpnsBuilt
+	var err error
+	if c.Pad != nil {
+		b, err = buildPadded(c, spec, now)
+	} else {
+		b, err = build(c, spec, now)
+	}
+	if errors.Is(err, kit.ErrIpnsHarness) {
+		return kit.Fail("%v", err)
+	}
 	if err != nil {
 		return kit.Fail("NewRecord failed on valid inputs: %v", err)
+	}
+	spec = b.Spec // includes the padding entry, if any
+	if !spec.MetaValid() {
+		return kit.Fail("harness: padded metadata is not valid")
+	}
+	switch sz := len(b.Bytes); {
+	case sz > ipns.MaxRecordSize:
+		// NewRecord has no documented size check and records over the limit are documented
+		// to be refused by UnmarshalRecord/Validate: outside the property's domain. The
+		// generator does not aim here (base records stay far below the limit).
+		return kit.Result{Classes: append(cls, "size:over-limit")}
+	case sz == ipns.MaxRecordSize:
+		cls = append(cls, "size:=max")
+	case sz >= ipns.MaxRecordSize-8:
+		cls = append(cls, "size:max-1..8")
+	case c.Pad != nil:
+		cls = append(cls, "size:padded")
 	}
 	pub := b.Key.GetPublic()
 
@@ -269,7 +393,7 @@ func run(c Case) kit.Result {
 
 var spec = kit.Spec[Case]{
 	Prop: "C26", Name: "main",
-	Rule:  "one generated (key type, value path, sequence over uint64 classes, future EOL with nanoseconds up to year 9999 given as a time.Time in UTC or in a fixed non-UTC zone (same instant), TTL class, metadata map, V1-compat/embed options): NewRecord -> accessors -> Marshal -> Unmarshal -> accessors -> Validate family; or one documented-invalid metadata entry added -> NewRecord must fail; non-trivial = sequence >= 2^63, metadata non-empty, or invalid-metadata case",
+	Rule:  "one generated (key type, value path, sequence over uint64 classes, future EOL with nanoseconds up to year 9999 given as a time.Time in UTC or in a fixed non-UTC zone (same instant), TTL class, metadata map, V1-compat/embed options; in 1/8 of the valid cases one more bytes/string metadata entry sized so that the serialized record is exactly MaxRecordSize, MaxRecordSize-1..8 or some hundreds/thousands of bytes below (the limit is inclusive)): NewRecord -> accessors -> Marshal -> Unmarshal -> accessors -> Validate family; or one documented-invalid metadata entry added -> NewRecord must fail; non-trivial = sequence >= 2^63, metadata non-empty, or invalid-metadata case",
 	Quick: 4000, Thorough: 20000,
 	Gen: gen, Run: run,
 }
